@@ -416,6 +416,8 @@ class CFG:
         from .load import parent
 
         n: ast.AST | None = node
+        while isinstance(n, (ast.With, ast.AsyncWith, ast.Try)):
+            n = n.items[0] if isinstance(n, (ast.With, ast.AsyncWith)) else n.body[0]
         while n is not None:
             got = self._by_ast.get(id(n))
             if got:
